@@ -64,6 +64,11 @@ def non_dominated_set_ranked(y, fraction, return_mask=True):
         return np.asarray([fraction > 0.0])
 
     n_points = np.shape(y)[0]
+    if fraction >= 1:
+        # Every point is requested. The product below is then not needed; for a large fraction it
+        # exceeds the range of a 64-bit integer (the conversion gave a negative number and no point
+        # was returned, or failed for an integer fraction).
+        return np.ones(n_points, dtype=bool)
     req_number = min(np.ceil(fraction * n_points).astype(int), n_points)
     if req_number <= 0:
         return np.zeros(n_points, dtype=bool)
